@@ -377,6 +377,12 @@ func (n *networkService) ReleaseIP(ctx context.Context, r *rpc.ReleaseIPRequest)
 	}
 
 	if n.ipamType == types.IPAMTypeCRD || pod.IPStickTime == 0 {
+		// the record goes first: once the pool lets the address go another pod's ADD may be handed it, and a
+		// record that outlives the release (crash, failed delete) claims that pod's address on the next start
+		err = n.deletePodResource(pod)
+		if err != nil {
+			return nil, fmt.Errorf("error delete pod resource: %w", err)
+		}
 		for _, resource := range oldRes.Resources {
 			res := parseNetworkResource(resource)
 			if res == nil {
@@ -389,10 +395,6 @@ func (n *networkService) ReleaseIP(ctx context.Context, r *rpc.ReleaseIPRequest)
 			if err != nil {
 				return nil, err
 			}
-		}
-		err = n.deletePodResource(pod)
-		if err != nil {
-			return nil, fmt.Errorf("error delete pod resource: %w", err)
 		}
 	}
 
